@@ -507,13 +507,13 @@ Qed.
 (* server side alone, for ANY client that opens m's route (not only the generated stub) *)
 Lemma server_side svc im m h reqs :
   names_distinct svc -> owns svc m -> im (m_py m) = Some h ->
-  typed (m_in m) reqs -> (m_cs m = false -> exists r, reqs = [r]) ->
+  typed (m_in m) reqs ->
   handler_ok m h (adapter_input (m_cs m) reqs) ->
   let p := produced (m_ss m) h (adapter_input (m_cs m) reqs) in
   serve svc im (route svc m) (map snd reqs) =
     SOut [(m_py m, adapter_input (m_cs m) reqs)] (map snd (fst p)) (snd p).
 Proof.
-  intros ND Hown Him Hty Hone Hok p.
+  intros ND Hown Him Hty Hok p.
   rewrite (serve_own svc im m h (map snd reqs) ND Hown) by (unfold resolve_handler; rewrite Him; reflexivity).
   rewrite decode_encode by assumption.
   destruct (run_and_send m h _ Hok) as [Hs _]. exact Hs.
